@@ -144,6 +144,22 @@ Proof.
       unfold Ncells in *. lia.
 Qed.
 
+(** the fill calls that serve a read of a dataset without data reach exactly the count elements requested:
+    HDmemfill gets the element count, NC_arrayfill the byte length count * szof (arguments regenerated from putget.c) *)
+Lemma empty_read_fills_all : forall m count, 0 < m_esz m ->
+  match m_fillattr m with
+  | Some _ => if m_rdonly m then vdata_rdonly_memfill_count count (m_esz m)
+              else vdata_template_memfill_count count (m_esz m)
+  | None => (if m_rdonly m then vdata_rdonly_arrayfill_bytes count (m_esz m)
+             else vdata_template_arrayfill_bytes count (m_esz m)) / m_esz m
+  end = count.
+Proof.
+  intros m count He.
+  unfold vdata_rdonly_memfill_count, vdata_template_memfill_count,
+         vdata_rdonly_arrayfill_bytes, vdata_template_arrayfill_bytes.
+  destruct (m_fillattr m); destruct (m_rdonly m); auto; apply Z.div_mul; lia.
+Qed.
+
 (** reading count numbers at element index w *)
 Lemma xdr_read_block : forall m w count,
   is_recvar m = false -> 0 < m_esz m ->
@@ -155,7 +171,9 @@ Proof.
   intros m w count Hr He Hst Hsh Hw Hc Hb.
   pose proof (prod_nonneg _ Hsh) as HP.
   unfold xdr_vdata, base, elem_length. cbv zeta. destruct (m_store m) as [| c0 st] eqn:St.
-  - simpl length. replace (m_esz m * Z.of_nat 0) with 0 by lia. simpl. eexists. f_equal. f_equal.
+  - simpl length. replace (m_esz m * Z.of_nat 0) with 0 by lia. simpl.
+    rewrite (empty_read_fills_all m count He). rewrite Z.min_id, Z.sub_diag. simpl repeat. rewrite app_nil_r.
+    eexists. f_equal. f_equal.
     unfold fullfill, Ncells.
     replace (Z.to_nat (prod (m_shape m))) with (Z.to_nat w + (Z.to_nat count + (Z.to_nat (prod (m_shape m)) - Z.to_nat w - Z.to_nat count)))%nat by lia.
     rewrite !repeat_app. rewrite skipn_exact by apply repeat_length.
@@ -1202,15 +1220,20 @@ Definition out_sim (so : sout) (mo : mout) : Prop :=
 Lemma sim_step : forall a m o, sim a m -> op_dom (length (m_shape m)) o ->
   sim (fst (s_step a o)) (fst (m_step m o)) /\ out_sim (snd (s_step a o)) (snd (m_step m o)).
 Proof.
-  intros a m o S D. destruct o as [md | v | b | us st sd ct vals | us st sd ct | |]; cbn [s_step m_step op_dom] in *.
+  intros a m o S D. destruct o as [md | v | b | us st sd ct vals | us st sd ct | | |]; cbn [s_step m_step op_dom] in *.
   - (* SDsetfillmode, not NOFILL *)
     pose proof S as [Sshape Sfix Sfm Suf Sdf Sok Srank Slen Scells Sfresh Sempty].
     pose proof Sok as [Hr [Hnf [He [Hsh Hst]]]].
     assert (E1 : (if md =? 0 then true else if md =? 256 then false else a_fillmode a) = true).
     { rewrite Sfm. destruct (md =? 0); auto. destruct (md =? 256) eqn:E; auto. apply Z.eqb_eq in E.
       unfold NC_NOFILL in D. congruence. }
-    assert (E2 : (if md =? NC_NOFILL then true else if md =? NC_FILL then false else m_nofill m) = false).
-    { rewrite Hnf. destruct (md =? NC_NOFILL) eqn:E; [apply Z.eqb_eq in E; congruence |]. destruct (md =? NC_FILL); auto. }
+    assert (E2 : (if m_rdonly m then m_nofill m
+                  else if md =? NC_NOFILL then true
+                  else if md =? NC_FILL then
+                    (if m_nofill m then negb (truth ncsetfill_back_to_fill_clears_nofill) else false)
+                  else m_nofill m) = false).
+    { rewrite Hnf. destruct (m_rdonly m); auto.
+      destruct (md =? NC_NOFILL) eqn:E; [apply Z.eqb_eq in E; congruence |]. destruct (md =? NC_FILL); auto. }
     rewrite E1, E2. cbn [fst snd]. split; [| exact I].
     apply (sim_state_same _ m); [| reflexivity | repeat split; auto].
     rewrite <- Sfm. destruct a; exact S.
@@ -1218,7 +1241,7 @@ Proof.
     pose proof S as [Sshape Sfix Sfm Suf Sdf Sok Srank Slen Scells Sfresh Sempty].
     pose proof Sok as [Hr [Hnf [He [Hsh Hst]]]].
     cbn [fst snd]. split; [| exact I].
-    set (m' := mkM (m_shape m) (m_esz m) (m_numrecs m) (Some v) (m_dfill m) (m_nofill m) (m_store m) (m_recsize m)).
+    set (m' := mkM (m_shape m) (m_esz m) (m_numrecs m) (Some v) (m_dfill m) (m_nofill m) (m_store m) (m_recsize m) (m_rdonly m)).
     assert (Fo : fill_of m' = v) by reflexivity.
     assert (Nc : Ncells m' = Ncells m) by reflexivity.
     assert (Bs : m_store m <> [] -> base m' = base m).
@@ -1237,7 +1260,7 @@ Proof.
       * specialize (Sfresh eq_refl). specialize (Sempty Sfresh). rewrite Forall_forall in Sempty.
         destruct (Nat.lt_ge_cases i (length (a_cells a))) as [Li | Li].
         -- destruct (Sempty (nth i (a_cells a) Undef) (nth_In _ _ Li)) as [C | C]; rewrite C; simpl; auto.
-           unfold base, m'. cbn [m_store]. rewrite Sfresh. unfold fullfill. rewrite nth_repeat_lt by (change (Ncells (mkM (m_shape m) (m_esz m) (m_numrecs m) (Some v) (m_dfill m) (m_nofill m) [] (m_recsize m))) with (Ncells m); rewrite <- Slen; auto).
+           unfold base, m'. cbn [m_store]. rewrite Sfresh. unfold fullfill. rewrite nth_repeat_lt by (change (Ncells (mkM (m_shape m) (m_esz m) (m_numrecs m) (Some v) (m_dfill m) (m_nofill m) [] (m_recsize m) (m_rdonly m))) with (Ncells m); rewrite <- Slen; auto).
            reflexivity.
         -- rewrite nth_overflow by lia. exact I.
     + intros E. destruct (a_touched a) eqn:T; auto.
@@ -1262,6 +1285,12 @@ Proof.
     destruct (m_shape m) as [| d ds]; constructor. simpl; lia.
     clear. induction ds; simpl; constructor; auto. simpl; lia.
   - (* SDend + SDstart *)
+    pose proof S as [Sshape Sfix Sfm Suf Sdf Sok Srank Slen Scells Sfresh Sempty].
+    pose proof Sok as [Hr [Hnf [He [Hsh Hst]]]].
+    cbn [fst snd]. split; [| exact I]. rewrite Hr.
+    apply (sim_state_same _ m); [| reflexivity | repeat split; auto].
+    rewrite <- Sfm. destruct a; exact S.
+  - (* SDend + SDstart(DFACC_READ) *)
     pose proof S as [Sshape Sfix Sfm Suf Sdf Sok Srank Slen Scells Sfresh Sempty].
     pose proof Sok as [Hr [Hnf [He [Hsh Hst]]]].
     cbn [fst snd]. split; [| exact I]. rewrite Hr.
@@ -1345,4 +1374,16 @@ Proof.
   { apply enough_vals; auto. rewrite map_length. auto. }
   destruct (vario true start count (mkAcc m [] [] (map Val vals))) as [ok a']. cbn [fst snd] in *.
   split; auto. split. apply P4. rewrite P2. apply write_changed; auto.
+Qed.
+
+(** SDsetfillmode: in a writable session, NOFILL then FILL leaves the file in fill mode (ncsetfill reaches the
+    statement that clears NC_NOFILL: regenerated from file.c), and NOFILL sets it *)
+Lemma fill_mode_restored_lemma : forall m, m_rdonly m = false ->
+  m_nofill (fst (m_step m (OpMode NC_NOFILL))) = true /\
+  m_nofill (fst (m_step (fst (m_step m (OpMode NC_NOFILL))) (OpMode NC_FILL))) = false /\
+  m_nofill (fst (m_step m (OpMode NC_FILL))) = false.
+Proof.
+  intros m H. cbn [m_step fst m_nofill m_rdonly]. rewrite H.
+  unfold NC_NOFILL, NC_FILL, ncsetfill_back_to_fill_clears_nofill, truth. simpl.
+  destruct (m_nofill m); auto.
 Qed.
